@@ -9,20 +9,21 @@ CONSTANTS
   KwVals = {}
   MaxKw = 0
   FBug = "none"
-  XMaxItems = 1
-  XLits <- F1XLits
-  XNames <- F1XNames
-  XChains <- F1XChains
-  XConvs <- F1XConvs
-  XSpecs <- F1XSpecs
-  XPosVals <- F1XPos
+  XMaxItems = 2
+  XLits <- N1XLits
+  XNames <- N2XNames
+  XChains <- N2XChains
+  XConvs <- N2XConvs
+  XSpecs <- N2XSpecs
+  XPosVals <- Q1XPos
   XExtraVals <- XOne
-  XKwNames <- KwABW
-  XKwVals <- F1XKw
+  XKwNames <- KwEdge
+  XKwVals <- XOne
   XKwExtraVals <- XOne
 INVARIANT Modelled
 INVARIANT Soundness
 INVARIANT Precision
 INVARIANT ResultType
+INVARIANT NoCrash
 INVARIANT EmitDone
 CHECK_DEADLOCK FALSE
